@@ -4,7 +4,7 @@ import verifylib as V
 ASSUME = [
     "handler buffers (>=1000 events) never fill in the explored histories; a full buffer returns an error to the collector by design",
     "nested Collect of a publish handler is modelled as one atomic step (hides only cross-collector ordering on the target topic, which C09 does not constrain)",
-    "aggregate handlers are timer driven and are covered separately (see DESIGN.md C09)",
+    "aggregate handlers are timer driven: the driver waits (up to 10 s) until the summaries account for every event, TLC chooses the grouping; events still buffered when an aggregate handler is removed are not examined",
     "TLC fingerprint collisions are negligible; the libflux link stub is never executed",
 ]
 
@@ -33,6 +33,13 @@ def run(sc, tier, seed):
     val3 = V.validate_traces(sc, "Topics", "TopicsTraceMC.tla", "TopicsTrace.cfg", meta3["trace_files"])
     R.states += val3["states"]
     R.handle_validation(val3)
+    # aggregate handlers: design level (AggTick) and timer-driven real runs; TLC chooses the grouping
+    R.add_model(V.model_check(sc, "Topics", "TopicsMC.tla", "Topics_agg.cfg", workers=8, timeout=1500))
+    out4, meta4 = V.run_driver(sc, "c09agg", tier, seed)
+    R.add_meta(meta4)
+    val4 = V.validate_traces(sc, "Topics", "TopicsTraceMC.tla", "TopicsAggTrace.cfg", meta4["trace_files"], parallel=4)
+    R.states += val4["states"]
+    R.handle_validation(val4)
     return R.finish("model_checking", ASSUME)
 
 
